@@ -294,6 +294,43 @@ def literal_obligations():
     return obs, decls
 
 
+def compound_assign_obligations():
+    """`dest op= value` where the value's type is as wide as, narrower than or WIDER than the destination: whatever the
+    compiler accepts, the store covers exactly the destination's bytes. The wider-value forms may be rejected by the
+    type checker (then there is nothing to check): they are marked may_be_rejected."""
+    obs = []; decls = []
+    dts = ['u8', 'i8', 'u16', 'i32']
+    vts = ['u8', 'u16', 'i32', 'u64', 'i64']
+    for dt in dts:
+        d = S(dt)
+        st = Struct('CA_%s' % dt, [('a', d), ('b', S('u8')), ('c', S('u8')), ('d', S('u8')), ('e', S('u64'))])
+        decls.append(st)
+        for vt in vts:
+            v = S(vt)
+            if d.signed() != v.signed() and not (not v.signed() and d.signed() and d.size() > v.size()):
+                continue        # mixed signs are rejected as operands anyway unless the unsigned one is strictly narrower
+            wider = v.size() > d.size()
+            for on, o in (('add', '+'), ('mul', '*'), ('and', '&')):
+                name = 'caf_%s_%s_%s' % (dt, vt, on)
+                src = '%s :: (p: ^mut %s, w: %s) { p.a %s= w; }' % (name, st.name, vt, o)
+
+                def post(ctx, xs, d=d):
+                    return [('only the destination field changes', frame(ctx, ctx.bufs[0], [(0, d.size())]))]
+                ob = Ob(name, src, [('buf', st, True), ('scalar', vt)], None, post, {'kind': 'compound-assign-field', 'dest': dt, 'value': vt, 'wider_value': wider})
+                ob.may_be_rejected = wider
+                obs.append(ob)
+                name = 'cae_%s_%s_%s' % (dt, vt, on)
+                arr = Array(4, d)
+                src = '%s :: (p: ^mut %s, w: %s) { p[1] %s= w; }' % (name, arr.src(), vt, o)
+
+                def apost(ctx, xs, d=d):
+                    return [('only the destination element changes', frame(ctx, ctx.bufs[0], [(d.size(), d.size())]))]
+                ob = Ob(name, src, [('buf', arr, True), ('scalar', vt)], None, apost, {'kind': 'compound-assign-element', 'dest': dt, 'value': vt, 'wider_value': wider})
+                ob.may_be_rejected = wider
+                obs.append(ob)
+    return obs, decls
+
+
 def abi_obligations(sizes, rnd):
     """struct arguments and returns of each size: bytes arrive intact, caller's copy is independent, neighbours untouched"""
     obs = []; decls = []
@@ -353,7 +390,19 @@ def run(chk, tier, seed):
     obs += abi_obs
     lit_obs, lit_decls = literal_obligations()
     obs += lit_obs
-    decls = DECLS + structs + abi_decls + lit_decls
+    ca_obs, ca_decls = compound_assign_obligations()
+    # the forms that the type checker may reject are tried one by one; only the accepted ones are obligations
+    kept = []
+    for ob in ca_obs:
+        if getattr(ob, 'may_be_rejected', False):
+            s1, r1 = build_source(ca_decls, [ob])
+            m1, o1 = clifcheck.compile_module('C02', 'optional', s1 + r1 + 'main :: () { refs(); }\n')
+            if m1 is None:
+                chk.cov['rejected_by_the_checker_nothing_to_check'] = chk.cov.get('rejected_by_the_checker_nothing_to_check', 0) + 1
+                continue
+        kept.append(ob)
+    obs += kept
+    decls = DECLS + structs + abi_decls + lit_decls + ca_decls
     src, refs = build_source(decls, obs)
     mod, out = clifcheck.compile_module('C02', 'writes', src + refs + 'main :: () { refs(); }\n')
     if mod is None:
